@@ -468,7 +468,92 @@ func TestC15Short(t *testing.T) {
 	rec(nil, 4)
 }
 
-func init() { reg("C15.cache", checkC15) }
+// ---- the library's own loaders, every source including the empty one ---------------------------------
+
+type C15LibCase struct {
+	Kind   int  `json:"kind"` // 0 ArrayLoader, 1 ArrayLoader filled with SetTemplate, 2 ChainLoader of two ArrayLoaders, 3 FileSystemLoader
+	Src    BStr `json:"src"`
+	Second bool `json:"second"` // a later loader has another template under the same name
+}
+
+// checkC15Lib: a loader that has the name serves its source, whatever the source is (the empty
+// template is a template), and the first loader that has the name wins.
+func checkC15Lib(c C15LibCase) error {
+	src := string(c.Src)
+	e := twig.New()
+	switch c.Kind {
+	case 0:
+		e.RegisterLoader(twig.NewArrayLoader(map[string]string{"t": src}))
+	case 1:
+		al := twig.NewArrayLoader(map[string]string{})
+		al.SetTemplate("t", src)
+		e.RegisterLoader(al)
+	case 2:
+		inner := []twig.Loader{twig.NewArrayLoader(map[string]string{"t": src})}
+		if c.Second {
+			inner = append(inner, twig.NewArrayLoader(map[string]string{"t": "SECOND"}))
+		}
+		e.RegisterLoader(twig.NewChainLoader(inner))
+	default:
+		root, err := os.MkdirTemp(workDir(), "c15lib-")
+		if err != nil {
+			return fmt.Errorf("harness: %v", err)
+		}
+		defer os.RemoveAll(root)
+		if err := os.WriteFile(filepath.Join(root, "t.twig"), []byte(src), 0o644); err != nil {
+			return fmt.Errorf("harness: %v", err)
+		}
+		e.RegisterLoader(twig.NewFileSystemLoader([]string{root}))
+	}
+	if c.Second && c.Kind != 2 {
+		e.RegisterLoader(twig.NewArrayLoader(map[string]string{"t": "SECOND"}))
+	}
+	want, ok := c15LibSources[src]
+	if !ok {
+		return fmt.Errorf("harness: no expectation for source %s", q(src))
+	}
+	for round := 1; round <= 2; round++ {
+		r := render(e, "t", nil)
+		if r.Panic != "" {
+			return fmt.Errorf("panic: %s", r.Panic)
+		}
+		if want == "\x00error" {
+			if r.Err == "" || errors.Is(r.Error(), twig.ErrTemplateNotFound) {
+				return fmt.Errorf("render %d of the name the first loader holds with the unparsable source %s gives %v, want a parse error", round, q(src), r)
+			}
+			continue
+		}
+		if r.Failed() || r.Out != want {
+			return fmt.Errorf("render %d of the name the first loader holds with source %s gives %v, want %s", round, q(src), r, q(want))
+		}
+	}
+	return nil
+}
+
+// sources of TestC15Library and what they render as ("\x00error": does not parse)
+var c15LibSources = map[string]string{"": "", " ": " ", "\n": "\n", "x": "x", "{{ 1 + 1 }}": "2", "{# c #}": "", "{% if %}": "\x00error"}
+
+func TestC15Library(t *testing.T) {
+	r := NewRec(t, "C15", "exhaustive: ArrayLoader (constructed / filled with SetTemplate), ChainLoader of ArrayLoaders and FileSystemLoader x sources {empty, blank, text, print tag, comment only, a source that does not parse} x {alone, a later loader has the same name}; oracle: the first loader's source is what renders, twice; non-trivial = empty source or a second loader")
+	defer r.Flush()
+	r.SetExhaustive()
+	for kind := 0; kind < 4; kind++ {
+		for _, src := range []string{"", " ", "\n", "x", "{{ 1 + 1 }}", "{# c #}", "{% if %}"} {
+			for _, second := range []bool{false, true} {
+				c := C15LibCase{Kind: kind, Src: BStr(src), Second: second}
+				r.Case(fmt.Sprint(kind, q(src), second), src == "" || second, c)
+				if err := checkC15Lib(c); err != nil {
+					r.FailEnum(t, "C15.lib", c, err)
+				}
+			}
+		}
+	}
+}
+
+func init() {
+	reg("C15.cache", checkC15)
+	reg("C15.lib", checkC15Lib)
+}
 
 // ---- file-system loader arm ---------------------------------------------------------------------
 
@@ -581,6 +666,19 @@ func runC15FS(c C15FSCase) (bool, error) {
 			}
 			os.Chtimes(path, time.Unix(clock, 0), time.Unix(clock, 0))
 			files[rt][name] = ent{version, clock, rt}
+		case "writeSame":
+			// the other search path gets a copy with different content and the same modification time
+			// (files deployed together)
+			other := 1 - rt
+			if it, ok := files[other][name]; ok && !c.Compiled {
+				version++
+				os.MkdirAll(filepath.Dir(path), 0o755)
+				if err := writeFile(path, name, fmt.Sprintf("v%d", version)); err != nil {
+					return false, fmt.Errorf("harness: %v", err)
+				}
+				os.Chtimes(path, time.Unix(it.ts, 0), time.Unix(it.ts, 0))
+				files[rt][name] = ent{version, it.ts, rt}
+			}
 		case "loadall":
 			// CompiledLoader.LoadAll on the running engine: whatever it preloads, later reads follow
 			// the same rules (the loader is timestamp-aware)
@@ -697,7 +795,7 @@ func runC15FS(c C15FSCase) (bool, error) {
 }
 
 func TestC15Files(t *testing.T) {
-	r := NewRec(t, "C15", "histories of 10-40 operations on an engine with a FileSystemLoader over two search paths in a temp directory: writes (distinct version markers, strictly increasing mtimes set with os.Chtimes), mtime changes without a content change, content changes that keep the mtime, removals (also of the earlier of two copies); one history in four runs against a CompiledLoader over .twig.compiled files instead; Load/Render, SetCache, SetAutoReload over 8 names that differ only after the last dot, in the directory part or by one character (a, a.b, a.c, mail.html, mail.txt, dir/a, dir/a.b, ab); oracle: the same cache model; non-trivial = at least two files exist when a name is read; distinct by operation list")
+	r := NewRec(t, "C15", "histories of 10-40 operations on an engine with a FileSystemLoader over two search paths in a temp directory: writes (distinct version markers, strictly increasing mtimes set with os.Chtimes), mtime changes without a content change, content changes that keep the mtime, removals (also of the earlier of two copies, also when both copies carry the same mtime); one history in four runs against a CompiledLoader over .twig.compiled files instead; Load/Render, SetCache, SetAutoReload over 8 names that differ only after the last dot, in the directory part or by one character (a, a.b, a.c, mail.html, mail.txt, dir/a, dir/a.b, ab); oracle: the same cache model; non-trivial = at least two files exist when a name is read; distinct by operation list")
 	defer r.Flush()
 	rapid.Check(t, func(rt *rapid.T) {
 		n := rapid.IntRange(10, 40).Draw(rt, "nops")
@@ -711,6 +809,14 @@ func TestC15Files(t *testing.T) {
 				C15FSOp{Op: "autoreload", On: rapid.IntRange(0, 3).Draw(rt, "tcar") != 0}, C15FSOp{Op: "load", Name: nm},
 				C15FSOp{Op: rapid.SampledFrom([]string{"remove", "remove", "touch", "write"}).Draw(rt, "tcchange"), Name: nm, Root: rapid.IntRange(0, 1).Draw(rt, "tcroot")},
 				C15FSOp{Op: "load", Name: nm}, C15FSOp{Op: "render", Name: nm})
+		}
+		if rapid.IntRange(0, 3).Draw(rt, "sametime") == 0 {
+			// two copies with equal modification times; the one that was served goes away
+			nm := rapid.IntRange(0, len(c15FSNames)-1).Draw(rt, "stname")
+			firstRoot := rapid.IntRange(0, 1).Draw(rt, "stroot")
+			c.Ops = append(c.Ops, C15FSOp{Op: "write", Name: nm, Root: firstRoot}, C15FSOp{Op: "writeSame", Name: nm, Root: 1 - firstRoot},
+				C15FSOp{Op: "autoreload", On: rapid.IntRange(0, 3).Draw(rt, "star") != 0}, C15FSOp{Op: "load", Name: nm}, C15FSOp{Op: "render", Name: nm},
+				C15FSOp{Op: "remove", Name: nm, Root: rapid.IntRange(0, 1).Draw(rt, "strm")}, C15FSOp{Op: "load", Name: nm}, C15FSOp{Op: "render", Name: nm})
 		}
 		if rapid.IntRange(0, 3).Draw(rt, "recreate") == 0 {
 			// a cached file disappears, is asked for while it is gone, and comes back
